@@ -307,6 +307,16 @@ var c05AgreeBases = []c05Doc{
 	}},
 }
 
+func init() {
+	c05AgreeBases = append(c05AgreeBases, c05Doc{"opened-foreign(empty part, big part, stored entries, header with media)", func() *document.Document {
+		o, errS := reopen(foreign.Compose([]string{"styles", "hdr-default", "empty-part", "big-part", "zip-stored"}))
+		if errS != "" {
+			panic("c05: foreign package does not open: " + errS)
+		}
+		return o
+	}})
+}
+
 func c05Agreement(each func(desc map[string]interface{}, run func(idx int64)), c *shard.Ctx, dir string, depth int) {
 	firsts := []string{"none", "ToBytes", "Save"}
 	orders := []string{"ToBytes-then-Save", "Save-then-ToBytes"}
@@ -651,7 +661,7 @@ func runC05(r *rep.Run) {
 		sizeInfo[c05Docs[dn].name] = max
 		total += max + 257
 	}
-	r.Rule = "for every document of the set and EVERY k in [0, size+256]: fresh document, ToBytes (reference), RLIMIT_FSIZE=k with SIGXFSZ ignored, real Document.Save to a real file, limit restored, file read back with the independent reader; verdict: err==nil => file is a readable ZIP whose part set equals ToBytes' and every part is byte-equal (XML parts: equal up to the order of id-keyed children and time stamps); plus target paths (plain, nested new directories, existing longer/shorter file, bare relative name: must succeed faithfully with no trailing bytes; /dev/full, a directory, below a regular file, empty name: must return an error); plus agreement histories without faults: 3 base documents (new; section settings first; opened) x first serialisation (none/ToBytes/Save) x every sequence of <= d mutations (styles added/removed, images, headers, footers, lists, notes, tables, page settings, properties, settings, removal) with a serialisation between mutations x both orders of the final ToBytes and Save: Save must return nil and the file must equal ToBytes; non-trivial = the fault actually struck (Save returned an error or the file is incomplete), a path case, or an agreement history whose document was serialised before it was changed; state = (document, k, outcome) / (history)"
+	r.Rule = "for every document of the set and EVERY k in [0, size+256]: fresh document, ToBytes (reference), RLIMIT_FSIZE=k with SIGXFSZ ignored, real Document.Save to a real file, limit restored, file read back with the independent reader; verdict: err==nil => file is a readable ZIP whose part set equals ToBytes' and every part is byte-equal (XML parts: equal up to the order of id-keyed children and time stamps); plus target paths (plain, nested new directories, existing longer/shorter file, bare relative name: must succeed faithfully with no trailing bytes; /dev/full, a directory, below a regular file, empty name: must return an error); plus agreement histories without faults: 4 base documents (new; section settings first; opened own output; opened foreign package with an empty part, a 200 KiB part and stored entries) x first serialisation (none/ToBytes/Save) x every sequence of <= d mutations (styles added/removed, images, headers, footers, lists, notes, tables, page settings, properties, settings, removal) with a serialisation between mutations x both orders of the final ToBytes and Save: Save must return nil and the file must equal ToBytes; non-trivial = the fault actually struck (Save returned an error or the file is incomplete), a path case, or an agreement history whose document was serialised before it was changed; state = (document, k, outcome) / (history)"
 	r.Bounds["documents"] = sizeInfo
 	r.Bounds["fault_offsets"] = total
 	r.Bounds["path_kinds"] = c05PathKinds
